@@ -247,6 +247,10 @@ def exceptions(repo, res):
     res.check(len(sb) == 1, "new:string-route", new.where(), "strings are parsed by parse_unyt_expr", rid=r2)
     bv = [n for n in ast.walk(new.node) if isinstance(n, ast.Try) and any("float(base_value)" in norm(s) for s in n.body)]
     res.check(len(bv) == 1 and all(is_raise_of(h.body[-1], "UnitParseError") for h in bv[0].handlers), "new:base_value", new.where(), "a base_value that is not a float raises UnitParseError", rid=r2)
+    # bytes are decoded before parsing: bytes.decode raises UnicodeDecodeError on invalid input
+    dec = [c for c in walk_no_nested(new.node) if isinstance(c, ast.Call) and isinstance(c.func, ast.Attribute) and c.func.attr == "decode"]
+    esc = [c for c in dec if not _caught_as_parse_error(new, c, ("UnicodeDecodeError", "UnicodeError", "ValueError"))]
+    res.check(not esc, "new:bytes-decode", new.where(esc[0]) if esc else new.where(), "Unit.__new__ decodes a bytes argument outside any handler: Unit(b'\\xff') raises UnicodeDecodeError instead of UnitParseError", "try/except UnicodeDecodeError -> UnitParseError (or no decoding)", [norm(c) for c in esc], rid=r2)
     walk = uo.func("_get_unit_data_from_expr")
     res.fn(walk)
     e = walk.params[0]
